@@ -66,8 +66,8 @@ _PACK_ASSUME = _FS_ASSUME + [
 PROPS = {
     "C02": {
         "streams": ["pack", "unpack"],
-        "theorems": "C02_round_trip (for every tree of regular files, directories, special files (fifos, sockets, devices: left out at every level: the only omissions) and symbolic links that stay inside - relative, non-empty, never climbing above the top of the tree when read from their own directory; dangling, chained and up-and-down links included - of any depth and width, every file system, destination, option set without ignore processing: Pack succeeds and Unpack of its output into an empty directory yields exactly the tree, link targets unchanged, times rounded to the second; by induction over the tree on both models, Slug/RoundTrip.v + Slug/RoundTripPack.v), C02_link_check_is_root_independent (such a link passes validSymlink under every root, which is why Pack and Unpack agree), C02_rounding, C02_round_trip_instance; for all trees: C05_no_leak_without_dereference, C20_meta_describes_slug, C01_unpack_outside_unchanged",
-        "assumptions": _PACK_ASSUME + ["partial: the theorem's hypotheses leave out trees whose links leave the tree and re-enter it by naming its directory, absolute links into the tree, ignore processing and allow-listed external links; those are decided per run by (i) correspondence of the Pack model and of the Unpack model with the implementation and (ii) packing, unpacking and comparing trees on the implementation (oracle)"],
+        "theorems": "C02_round_trip (for every tree of regular files, directories, special files (fifos, sockets, devices: left out at every level: the only omissions) and symbolic links that stay inside - relative, non-empty, never climbing above the top of the tree when read from their own directory; dangling, chained and up-and-down links included - of any depth and width, every file system, destination, option set without ignore processing: Pack succeeds and Unpack of its output into an empty directory yields exactly the tree, link targets unchanged, times rounded to the second; by induction over the tree on both models, Slug/RoundTrip.v + Slug/RoundTripPack.v), C02_round_trip_with_ignore (with ignore processing, for every rule set that never re-includes anything below an entry it excludes - decided by evaluation, C02_closedness_is_decidable -: the round trip yields exactly the tree with the excluded entries cut out, an entry staying iff its own path is not excluded; any file system, destination, options, working directory, state of the shared flags; Slug/RoundTripIgnore.v; C02_with_ignore_instance), C02_link_check_is_root_independent (such a link passes validSymlink under every root, which is why Pack and Unpack agree), C02_rounding, C02_round_trip_instance; for all trees: C05_no_leak_without_dereference, C20_meta_describes_slug, C01_unpack_outside_unchanged",
+        "assumptions": _PACK_ASSUME + ["partial: the theorems' hypotheses leave out trees whose links leave the tree and re-enter it by naming its directory, absolute links into the tree, rule sets that re-include entries below an excluded directory (the slug then holds entries whose parent directory has none, and Unpack makes those parents with default metadata) and allow-listed external links; those are decided per run by (i) correspondence of the Pack model and of the Unpack model with the implementation and (ii) packing, unpacking and comparing trees on the implementation (oracle)"],
     },
     "C05": {
         "streams": ["pack"],
